@@ -103,3 +103,11 @@ add("C12", "differential testing of check_command against scan_path on Hypothesi
     "directories and the root, the parsed output of check must list exactly scan's functions > 30 for the files scan analyses there, "
     "with equal positions, order, files-checked count and exit status.",
     "scan_path is the reference side (its own correctness is C01/C11); hidden files or directories named directly are unconstrained")
+
+add("C09", "stateful / model-based testing: Hypothesis RuleBasedStateMachine over edit-and-scan histories plus bounded-exhaustive operation sequences; differential oracle (cached scan vs fresh scan) and a cache model",
+    "All sequences of up to 2 (thorough 3) operations from a reduced alphabet (write / delete / rename / touch / swap / exclusion change / "
+    "other-version or version-less cache / altered cache entries), with and without an intermediate scan, and 240 (thorough 4800) "
+    "rule-based histories of up to 25 (50) steps run on a real temp tree through scan_command; after every scan the written cache must equal a "
+    "from-scratch scan, every file not covered by a same-version, same-checksum entry must have reached the wrapped analyser, and "
+    "report / findings must refuse other-version caches.",
+    "'fresh' is the tool's own scan without cache (correctness of the measurements is C01's business); small universe of 6 paths x 5 contents")
